@@ -298,9 +298,15 @@ func ShrinkWriter(w *WriterSpec) []*WriterSpec {
 	if body > 0 && w.Ops[body-1].K == "close" {
 		body--
 	}
-	// drop chunks: halves, quarters, ..., singles
-	for chunk := body / 2; chunk >= 1; chunk /= 2 {
-		for start := 0; start+chunk <= body; start += chunk {
+	// drop chunks: halves, quarters, ..., singles - but never more than a few
+	// hundred candidates (each holds a copy of the op list; a history of 16 000
+	// operations would otherwise cost gigabytes)
+	minChunk := 1
+	if body > 256 {
+		minChunk = body / 128
+	}
+	for chunk := body / 2; chunk >= minChunk && chunk >= 1; chunk /= 2 {
+		for start := 0; start+chunk <= body && len(out) < 300; start += chunk {
 			n := clone()
 			n.Ops = append(append([]Op(nil), w.Ops[:start]...), w.Ops[start+chunk:]...)
 			out = append(out, n)
@@ -343,6 +349,9 @@ func ShrinkWriter(w *WriterSpec) []*WriterSpec {
 		out = append(out, n)
 		cnt := 0
 		for i := range w.Ops {
+			if body > 2000 {
+				break // zeroing single records of a huge history is not worth a copy each
+			}
 			if w.Ops[i].K == "add" && string(w.Ops[i].Rec) != string(zero) {
 				n := clone()
 				n.Ops[i] = Op{K: "add", Rec: zero}
@@ -383,6 +392,9 @@ func genBoundary(r *Rng, o HistOpts) *WriterSpec {
 	// one record drawn once and added n times keeps the cost of generation low
 	// and makes every level run as long as it can be
 	rec := GenRec(r, sh.Type, prof)
+	if r.Chance(1, 3) {
+		rec = reflect.New(sh.Type).Elem().Interface() // the zero record: thousands of zero bytes in a row when uncompressed
+	}
 	op := AddOp(rec)
 	for i := 0; i < n; i++ {
 		if i%64 == 63 && r.Chance(1, 8) {
